@@ -251,12 +251,12 @@ func workerMain(args []string) int {
 				}
 				continue
 			}
-			if shrunk[v.Class] >= *maxShrink {
+			if shrunk[v.Class] >= *maxShrink || len(shrunk) >= int(envInt("VERIF_SHRINK_CLASSES", 40)) {
 				continue
 			}
 			shrunk[v.Class]++
 			runStarted.Store(0) // shrinking has its own budget
-			sr := core.Shrink(p.ID, eng.Name, eng.Run, src.Rec, v.Class, 6000, 120*time.Second)
+			sr := core.Shrink(p.ID, eng.Name, eng.Run, src.Rec, v.Class, 6000, time.Duration(envInt("VERIF_SHRINK_S", 120))*time.Second)
 			if sr.Outcome == nil {
 				sum.Trouble = append(sum.Trouble, fmt.Sprintf("run %d: violation %s did not reproduce from its own trace (nondeterminism in the harness)", i, v.Class))
 				continue
